@@ -426,7 +426,17 @@ impl Value {
 	#[cfg(feature = "canonicalize")]
 	pub fn canonicalize_with(&mut self, buffer: &mut ryu_js::Buffer) {
 		match self {
-			Self::Number(n) => *n = NumberBuf::from_number(n.canonical_with(buffer)),
+			Self::Number(n) => {
+				// RFC 8785 renders the double nearest to the exact decimal value:
+				// `str::parse` is correctly rounded whatever the number of digits,
+				// the lossy conversion behind `Number::canonical_with` is not.
+				*n = match n.as_str().parse::<f64>() {
+					Ok(f) if f.is_finite() => {
+						NumberBuf::from_number(Number::new(buffer.format_finite(f)).unwrap())
+					}
+					_ => NumberBuf::from_number(n.canonical_with(buffer)),
+				}
+			}
 			Self::Array(a) => {
 				for item in a {
 					item.canonicalize_with(buffer)
